@@ -615,6 +615,11 @@ func checkLocationEvaluator(c *Ctx, gsq, ev *ssa.Function) {
 		alts = append(alts, alt{tb.T(v), pc})
 	}
 	for _, r := range returnsOf(ev) {
+		if len(r.Results) == 0 {
+			// an evaluator that writes into a builder it is given instead of returning text
+			c.undecided("TERM-EVAL", "evaluator result", ev.Pos(), "the evaluator returns nothing (it writes into a sink it is handed); its result terms are not read")
+			return
+		}
 		expand(r.Results[0], pathCond(tb, ev.Blocks[0], r.Block()), 0)
 	}
 	compAtom := func(pc *Cond) (pos, neg bool) {
